@@ -376,6 +376,54 @@ theorem slice_unclamped_witness :
 example : sliceRanges false [8, 6, 4] [0, 0, -3, 0] [0, 8, -1, 4] 0 0 0 1 = ([0, 3, 0], [8, 5, 4], true) := by decide
 example : sliceRanges false [1, 8, 8, 4] [0, 2, 0, 0] [1, 6, 8, 4] 0 4 2 0 = ([0, 2, 0, 0], [1, 3, 8, 4], true) := by decide
 
+/-! ## 12. RESIZE as 2x nearest-neighbour upscalings (+ one average pool)
+
+Proved: the nearest-neighbour chain. NOT proved (compared by evaluation in the stream, `rwsem2_resize`: pooling sum and count
+of the final `k × k` average pool over the upscaled image against `k²` times the reference bilinear value `bilinearNum`, every
+position): the bilinear identity `sum · k² = bilinearNum · count`, and the align-corners depthwise selection. -/
+
+/-- `n` nearest-neighbour 2x upscalings (the 1x1 average pools with `IFM_UPSCALE = NEAREST` that
+    `convert_resize_to_upscale_and_average_pool` chains) read element `(y / 2^n, x / 2^n)` -/
+theorem upN_eq (n : Nat) (f : Nat → Nat → Int) (y x : Nat) : upN n f y x = f (y / 2 ^ n) (x / 2 ^ n) := by
+  induction n generalizing y x with
+  | zero => simp [upN]
+  | succ k ih =>
+    simp only [upN, up2]
+    rw [ih, Nat.div_div_eq_div_mul, Nat.div_div_eq_div_mul, Nat.pow_succ, Nat.mul_comm (2 ^ k) 2]
+
+/-- the source coordinate of the reference RESIZE_NEAREST_NEIGHBOR for an output of `H · 2^n` (no `align_corners`; with or
+    without `half_pixel_centers`) is `y / 2^n` -/
+theorem nearest_src_pow2 (H n y : Nat) (half : Bool) (hH : 0 < H) (hy : y < H * 2 ^ n) :
+    nearestSrc y H (H * 2 ^ n) false half H = y / 2 ^ n := by
+  unfold nearestSrc
+  simp only [Bool.false_eq_true, if_false]
+  have hP : 0 < 2 ^ n := Nat.pow_pos (by omega)
+  have e1 : (2 * y + (if half = true then 1 else 0)) * H / (2 * (H * 2 ^ n)) = (2 * y + (if half = true then 1 else 0)) / (2 * 2 ^ n) := by
+    have : 2 * (H * 2 ^ n) = (2 * 2 ^ n) * H := by
+      rw [Nat.mul_comm H, Nat.mul_assoc]
+    rw [this, Nat.mul_div_mul_right _ _ hH]
+  rw [e1]
+  have e2 : (2 * y + (if half = true then 1 else 0)) / (2 * 2 ^ n) = y / 2 ^ n := by
+    rw [← Nat.div_div_eq_div_mul]
+    congr 1
+    split <;> omega
+  rw [e2]
+  have : y / 2 ^ n < H := (Nat.div_lt_iff_lt_mul hP).mpr hy
+  omega
+
+/-- **RESIZE_NEAREST_NEIGHBOR by 2^n (no align_corners) = the chain of `n` 2x upscalings, bit-exact**, every output
+    element, with and without half-pixel centres (the code's comment "calculations are the same in the reference") -/
+theorem resize_nearest_chain_eq (H W n : Nat) (f : Nat → Nat → Int) (half : Bool) (hH : 0 < H) (hW : 0 < W) (y x : Nat)
+    (hy : y < H * 2 ^ n) (hx : x < W * 2 ^ n) :
+    upN n f y x = f (nearestSrc y H (H * 2 ^ n) false half H) (nearestSrc x W (W * 2 ^ n) false half W) := by
+  rw [upN_eq, nearest_src_pow2 H n y half hH hy, nearest_src_pow2 W n x half hW hx]
+
+example : resizePlan true false 3 4 3 = some ⟨3, [(6, 8), (12, 16)], .avgPoolPadded 8⟩ ∧
+    resizePlan false true 3 4 2 = some ⟨2, [(6, 8)], .depthwiseSelect 4 10⟩ ∧ resizePlan false false 3 4 1 = some ⟨1, [], .copy⟩ := by decide
+example :
+    let f : Nat → Nat → Int := fun y x => (y * 5 + x : Nat)
+    (List.range 12).map (fun y => upN 2 f y 7) = (List.range 12).map (fun y => f (nearestSrc y 3 12 false true 3) (nearestSrc 7 4 16 false true 4)) := by decide
+
 /-! ## 13. PRELU -/
 
 /-- **PRELU, the catch-all form `Add(Mul(Minimum(x, 0), alpha), Relu(x))`** (no scaling on the `Add`, the `Relu` rescales to the
